@@ -353,6 +353,10 @@ type childResult struct {
 	Samples    []map[string]any     `json:"samples"`
 	RlimitErr  string               `json:"rlimit_err,omitempty"`
 	MaxPayload int                  `json:"max_payload"`
+	// readings over the allocation bound that did not show again when the same frame was
+	// decoded twice more (process-wide MemStats picked up something else)
+	AllocNotReproduced   int      `json:"alloc_not_reproduced"`
+	AllocNotReproducedEx []string `json:"alloc_not_reproduced_examples,omitempty"`
 }
 
 func envInt(name string, def int) int {
@@ -481,36 +485,61 @@ func TestC05Child(t *testing.T) {
 		}
 		lastRecLen = len(recBuf)
 
-		dec := codec.NewDecoder(bytes.NewReader(frame), tg.row.Dir, logr.Discard())
-		dec.SetProtocol(tg.row.Protocol)
-		dec.SetState(tg.row.State)
+		// measure decodes the frame once with a fresh decoder and returns what the call did.
+		measure := func() (ctx *proto.PacketContext, derr error, escaped any, dur time.Duration, delta uint64) {
+			dec := codec.NewDecoder(bytes.NewReader(frame), tg.row.Dir, logr.Discard())
+			dec.SetProtocol(tg.row.Protocol)
+			dec.SetState(tg.row.State)
 
-		cur.Lock()
-		cur.idx, cur.since = idx, time.Now()
-		cur.Unlock()
-		runtime.ReadMemStats(&m0)
-		t0 := time.Now()
-		var ctx *proto.PacketContext
-		var derr error
-		var escaped any
-		func() {
-			defer func() { escaped = recover() }()
-			ctx, derr = dec.Decode()
-		}()
-		dur := time.Since(t0)
-		runtime.ReadMemStats(&m1)
-		cur.Lock()
-		cur.idx = -1
-		cur.Unlock()
+			cur.Lock()
+			cur.idx, cur.since = idx, time.Now()
+			cur.Unlock()
+			runtime.ReadMemStats(&m0)
+			t0 := time.Now()
+			func() {
+				defer func() { escaped = recover() }()
+				ctx, derr = dec.Decode()
+			}()
+			dur = time.Since(t0)
+			runtime.ReadMemStats(&m1)
+			cur.Lock()
+			cur.idx = -1
+			cur.Unlock()
+			delta = m1.TotalAlloc - m0.TotalAlloc
+			if m1.StackInuse > m0.StackInuse {
+				delta += m1.StackInuse - m0.StackInuse
+			}
+			return
+		}
+		ctx, derr, escaped, dur, delta := measure()
+		if delta > uint64(allocPerByte)*uint64(len(payload))+allocFixedCap && delta <= 1<<30 && dur <= 2*time.Second {
+			// MemStats are process-wide: a reading over the bound is attributed to this call
+			// only if it reproduces. Decoding is deterministic in its input, so memory the
+			// call itself allocates shows again on every repeat, whereas a one-off effect of
+			// the runtime in the window does not. Observed on the unchanged tree: when a GC
+			// cycle shrinks this goroutine's stack (grown to 64-128 MiB by an earlier
+			// deep-nesting case) inside the window, the new half-size stack is already counted
+			// in StackInuse while the old one stays counted until the cycle ends, which reads
+			// as exactly +32 MiB or +64 MiB on a call that allocated a kilobyte. The smallest
+			// of three readings is what the call provably allocates every time.
+			first := delta
+			for k := 0; k < 2; k++ {
+				if _, _, _, _, d := measure(); d < delta {
+					delta = d
+				}
+			}
+			if delta <= uint64(allocPerByte)*uint64(len(payload))+allocFixedCap {
+				res.AllocNotReproduced++
+				if len(res.AllocNotReproducedEx) < 5 {
+					res.AllocNotReproducedEx = append(res.AllocNotReproducedEx, fmt.Sprintf("idx=%d %s len=%d first=%d repeat-min=%d", idx, tg.row.Key(), len(payload), first, delta))
+				}
+			}
+		}
 
 		res.Cases++
 		res.Kinds[kind]++
 		if len(payload) > res.MaxPayload {
 			res.MaxPayload = len(payload)
-		}
-		delta := m1.TotalAlloc - m0.TotalAlloc
-		if m1.StackInuse > m0.StackInuse {
-			delta += m1.StackInuse - m0.StackInuse
 		}
 		st := res.Types[tg.row.TypeName]
 		if st == nil {
@@ -590,7 +619,7 @@ func TestC05(t *testing.T) {
 	r := lib.Start(t, "C05")
 	defer r.Finish()
 	r.Rule("targets = every (state, direction, supported protocol, registered id) row of the registry plus one unregistered id per table and protocol; per target N payloads cycling through the kinds random-small / random-medium / valid / truncated-valid / valid+garbage / hostile-length-anywhere ({-1, 2^31-1, 2^21, ...} VarInt spliced in) / hostile-first-field / byte-flips / deep-nesting (NBT compounds and lists, JSON arrays) / random-large / hostile-structure (command graphs, NBT arrays, huge counts), from a PRNG seeded by (VERIF_SEED, row, index); each is framed and decoded by codec.Decoder.Decode in a child process; distinct = distinct (row, payload)")
-	r.Assume("runtime.MemStats.TotalAlloc (+ StackInuse growth) read around a call on the only busy goroutine of a child process is the memory that call allocated")
+	r.Assume("runtime.MemStats.TotalAlloc (+ StackInuse growth) read around a call on the only busy goroutine of a child process is an upper bound of the memory that call allocated; because the counters are process-wide, a reading over the bound (up to 1 GiB, call shorter than 2 s) is re-taken twice on the same frame and the smallest reading decides (decoding is deterministic in its input, so what the call allocates shows every time); readings that do not reproduce are counted in alloc_readings_over_bound_not_reproduced_on_repeat")
 	r.Assume(fmt.Sprintf("allocation bound: %d bytes per payload byte + %d bytes fixed; calibrated on the unchanged tree with a margin >= 4x over the observed legitimate maxima (see calibration_* keys)", allocPerByte, allocFixedCap))
 	r.Assume("inputs are in memory, so a Decode that does not return is a loop; a watchdog expiry is confirmed by re-running the case alone in a fresh process with 3x the budget before it counts")
 
@@ -851,6 +880,10 @@ func TestC05(t *testing.T) {
 	r.Set("outcomes", merged.Outcomes)
 	r.Set("payload_kinds", merged.Kinds)
 	r.Set("largest_payload_bytes", merged.MaxPayload)
+	r.Set("alloc_readings_over_bound_not_reproduced_on_repeat", merged.AllocNotReproduced)
+	if merged.AllocNotReproduced > 0 {
+		r.Set("alloc_readings_not_reproduced_examples", merged.AllocNotReproducedEx)
+	}
 	r.Set("child_processes", shards)
 	r.Set("child_crashes", crashes)
 	r.Set("child_restarts", restarts)
@@ -944,6 +977,12 @@ func merge(dst, src *childResult) {
 	dst.Distinct = append(dst.Distinct, src.Distinct...)
 	if len(dst.Samples) < 8 {
 		dst.Samples = append(dst.Samples, src.Samples...)
+	}
+	dst.AllocNotReproduced += src.AllocNotReproduced
+	for _, e := range src.AllocNotReproducedEx {
+		if len(dst.AllocNotReproducedEx) < 5 {
+			dst.AllocNotReproducedEx = append(dst.AllocNotReproducedEx, e)
+		}
 	}
 	if src.MaxPayload > dst.MaxPayload {
 		dst.MaxPayload = src.MaxPayload
